@@ -82,6 +82,8 @@ type listItem struct {
 	Quick, Thor      int // Engine A: preemption bound per tier (-1 = skip); Engine B: shards per tier (0 = skip)
 	QuickShards      int
 	ThorShards       int
+	FreeQuick        int
+	FreeThor         int
 }
 
 type job struct {
@@ -187,9 +189,11 @@ func main() {
 		}
 		lvl := it.Quick
 		shards := it.QuickShards
+		free := it.FreeQuick
 		if *tier == "thorough" {
 			lvl = it.Thor
 			shards = it.ThorShards
+			free = it.FreeThor
 		}
 		if shards <= 0 {
 			shards = 1
@@ -199,8 +203,8 @@ func main() {
 				continue
 			}
 			for s := 0; s < shards; s++ {
-				jobs = append(jobs, &job{bin: bin, name: fmt.Sprintf("%s[b%d,%d/%d]", it.Name, lvl, s, shards),
-					args: []string{"-prop", prop, "-scenario", it.Name, "-bound", fmt.Sprint(lvl),
+				jobs = append(jobs, &job{bin: bin, name: fmt.Sprintf("%s[b%d,f%d,%d/%d]", it.Name, lvl, free, s, shards),
+					args: []string{"-prop", prop, "-scenario", it.Name, "-bound", fmt.Sprint(lvl), "-fbound", fmt.Sprint(free),
 						"-shard", fmt.Sprint(s), "-nshards", fmt.Sprint(shards)}})
 			}
 		} else {
